@@ -16,9 +16,9 @@ func init() {
 	register(&Prop{
 		ID:       "C09",
 		Category: "model_checking",
-		Rule: "for every accelerated setting, every data set (content kinds at sizes around the fill trigger T, 2T, 64K+T; tiny strings) and every Flush-position set: " +
+		Rule: "for every accelerated setting, every data set (content kinds at sizes around the fill trigger T, 2T, 64K+T; tiny strings) and every Flush-position set (none, mid, T, {1,n-1}, Flush first, the same position twice, right before Close, {0,0,n,n}): " +
 			"every subset of the cut-candidate set K (0,1,2,7,8,9, T-9..T+9, 32767, 32768, 65535..65537, |D|-1, |D| and the Flush positions) of size <=1 and every pair from the reduced set (quick) / every subset of size <=2 plus triples of the reduced set, the all-candidates partition and the 1-byte partition (thorough), " +
-			"each also with a zero-length Write before or after every cut; oracle: emitted bytes identical to the one-Write-per-Flush-segment run; non-trivial = at least one cut strictly inside the data",
+			"each also with a zero-length Write before or after every Write and every Flush; oracle: emitted bytes identical to the one-Write-per-Flush-segment run; non-trivial = at least one cut strictly inside the data",
 		Assumptions: []string{"none beyond the engine: the reference is the same Writer type fed the same data in one piece"},
 		Quick:       TierSpec{MaxDev: -1, Shards: 4, ShardDepth: 3, BudgetS: 150},
 		Thorough:    TierSpec{MaxDev: -1, Shards: 8, ShardDepth: 3, BudgetS: 1700},
@@ -72,12 +72,12 @@ func c09Harness(cfg *Cfg) func(x *mc.Exec) {
 		D := ds[di].data
 		n := len(D)
 		// Flush position sets
-		phis := [][]int{nil, {n / 2}, {T}, {1, n - 1}}
+		phis := [][]int{nil, {n / 2}, {T}, {1, n - 1}, {0}, {n / 2, n / 2}, {n}, {0, 0, n, n}}
 		pi := x.Choose(len(phis), "flushset")
 		var phi []int
 		for _, p := range phis[pi] {
-			if p > 0 && p < n {
-				phi = append(phi, p)
+			if p >= 0 && p <= n {
+				phi = append(phi, p) // Flush first, repeated Flush at one position and Flush right before Close included
 			}
 		}
 		// candidate cuts
@@ -152,7 +152,7 @@ func c09Harness(cfg *Cfg) func(x *mc.Exec) {
 			}
 		}
 		zmode := 0
-		if len(cuts) > 0 && len(cuts) < 100 {
+		if len(cuts) < 100 && (len(cuts) > 0 || len(phi) > 0) {
 			zmode = x.Choose(3, "zero-writes")
 		}
 		for _, c := range cuts {
@@ -206,6 +206,11 @@ func c09Harness(cfg *Cfg) func(x *mc.Exec) {
 				}
 				pos = e.pos
 				if e.flush {
+					if zmode == 1 {
+						if _, _, ok := r.do(x, "C09", opWrite, []byte{}, "W(0)"); !ok {
+							return nil, false
+						}
+					}
 					_, err, ok := r.do(x, "C09", opFlush, nil, "Flush")
 					if !ok {
 						return nil, false
@@ -213,6 +218,11 @@ func c09Harness(cfg *Cfg) func(x *mc.Exec) {
 					if err != nil {
 						x.Fail("C09 flush-error "+k.Kind+accTag(k), "%s [%s]: %v", k, r.hist, err)
 						return nil, false
+					}
+					if zmode == 2 {
+						if _, _, ok := r.do(x, "C09", opWrite, nil, "W(nil)"); !ok {
+							return nil, false
+						}
 					}
 				}
 			}
